@@ -250,7 +250,12 @@ func (b *bucket) take(now float64, n, rate, burst int) bool {
 	if b.level > float64(burst) {
 		b.level = float64(burst)
 	}
-	b.last = now
+	if now > b.last {
+		// a request stamped earlier than one already seen (a straggler among concurrent
+		// callers) neither refills nor moves the bucket's clock back: otherwise the seconds
+		// in between would be refilled a second time
+		b.last = now
+	}
 	if b.level >= float64(n) {
 		b.level -= float64(n)
 		return true
@@ -270,13 +275,18 @@ type tlSys struct {
 	up            bool
 	rescueMode    bool // the limiter believes Redis is down
 	admitted      []float64
+	maxSeen       float64
 	evals         int
 	evalsInRescue bool
 	everRescue    bool
 }
 
-func (s *tlSys) allow(n int) {
-	callerNow := vrt.Now().Add(s.skew)
+func (s *tlSys) allow(n int) { s.allowAt(n, 0) }
+
+// allowAt: a request for n tokens whose caller read its clock `late` ago (concurrent callers
+// straddling a second boundary reach Redis out of order)
+func (s *tlSys) allowAt(n int, late time.Duration) {
+	callerNow := vrt.Now().Add(s.skew).Add(-late)
 	now := float64(callerNow.Unix())
 	nowFrac := float64(callerNow.UnixNano()) / 1e9 // the in-process bucket refills continuously
 	var want bool
@@ -310,9 +320,21 @@ func (s *tlSys) allow(n int) {
 		s.r.Failf("Redis is reachable and the limiter not in rescue mode, but the call did not reach Redis")
 	}
 	if got {
-		for i := 0; i < n; i++ {
-			s.admitted = append(s.admitted, now)
+		// (a straggler is counted at the latest second already seen: it was admitted no
+		// earlier than that)
+		at := now
+		if len(s.admitted) > 0 && s.admitted[len(s.admitted)-1] > at {
+			at = s.admitted[len(s.admitted)-1]
 		}
+		if s.maxSeen > at {
+			at = s.maxSeen
+		}
+		for i := 0; i < n; i++ {
+			s.admitted = append(s.admitted, at)
+		}
+	}
+	if now > s.maxSeen {
+		s.maxSeen = now
 	}
 	// window invariant while a single bucket is in charge: admitted in [a, b] <= burst + rate*(b-a)
 	if !s.everRescue {
@@ -331,6 +353,11 @@ func (s *tlSys) allow(n int) {
 
 func (s *tlSys) apply(op string) bool {
 	switch {
+	case strings.HasPrefix(op, "late:"):
+		var n int
+		fmt.Sscanf(op, "late:%d", &n)
+		s.allowAt(n, time.Second)
+		vrt.Settle()
 	case strings.HasPrefix(op, "allow:"):
 		var n int
 		fmt.Sscanf(op, "allow:%d", &n)
@@ -426,7 +453,7 @@ func TestVerifTokenLimit(t *testing.T) {
 			depth = 8
 		}
 		ttl := c.burst * 2 / c.rate
-		ops := []string{"allow:1", "allow:2", fmt.Sprintf("allow:%d", c.burst), fmt.Sprintf("allow:%d", c.burst+1), "t0", "ms600", "t1", "t2", fmt.Sprintf("t%d", ttl), fmt.Sprintf("t%d", ttl+1), "down", "up", "monitor", "newlimiter"}
+		ops := []string{"allow:1", "allow:2", "late:1", fmt.Sprintf("allow:%d", c.burst), fmt.Sprintf("allow:%d", c.burst+1), "t0", "ms600", "t1", "t2", fmt.Sprintf("t%d", ttl), fmt.Sprintf("t%d", ttl+1), "down", "up", "monitor", "newlimiter"}
 		vrt.BFS(vrt.Options{Name: fmt.Sprintf("tokenlimit/rate=%d/burst=%d/callerclock=%+v", c.rate, c.burst, c.skew), Budget: vrt.FairBudget(len(mine) - i)}, depth, ops, func(r *vrt.Run, hist []string) vrt.Step {
 			// the per-address breaker must never shed calls here (C01/C12 cover it)
 			vrt.SetRandHook(func() (int64, bool) { return vrt.FloatDraw(1 - 1.0/(1<<53)), true })
